@@ -252,7 +252,7 @@ def build(r, pos, nl):
 POSITIONS = ["expr", "expr-multiline", "control", "for-iterable", "for-iterable-loop", "loop-body", "elif-test", "while-test", "call-expr", "tag-attr",
              "include-file-expr", "code-line", "def", "nested-def", "call-body", "block", "anon-block",
              "filter", "decorator", "include", "namespace-def", "inherit-base", "inherit-child"]
-PATHS = ["put_string", "file-lookup", "moddir-first", "moddir-reload"]
+PATHS = ["put_string", "file-lookup", "moddir-first", "moddir-reload", "moddir-relative"]
 
 
 def make_lookup(spec, path, d, **kw):
@@ -272,6 +272,9 @@ def make_lookup(spec, path, d, **kw):
         ids[uri] = fp
     if path.startswith("moddir"):
         kw["module_directory"] = os.path.join(d, "mods")
+        if path == "moddir-relative":
+            # a module directory given relative to the working directory (Python makes module paths absolute itself)
+            kw["module_directory"] = os.path.relpath(kw["module_directory"], os.getcwd())
     lk = L(directories=[root], imports=IMPORTS, **kw)
     return lk, ids, lambda: None
 
